@@ -1,13 +1,95 @@
 import Thanos.Common.Parse
+import Thanos.Model.Hashring
 /-
   Line-protocol driver of the `hashring` family (C18 C19 C20 C21 C27).
   One request per line, one answer per line; every line is self-contained.
+
+  ket <mode> <rf> <nq> <eps> <series>
+      mode    t = print the replica table, d = print a digest of it
+      rf      replication factor
+      nq      GetN is asked for n = 0 .. nq-1
+      eps     `,`-list of  <addrhex>/<azhex>/<h1.h2.….hk>   (hashes of the endpoint's sections, decimal)
+      series  `,`-list of  <tenanthex>:<labels>:<v>            (only v, the series hash, is read here)
+    -> toofew | stuck | hang | panic | ok <T> <G>
+      T       mode t: `;`-list, one entry per section in ring order:  <ep>:<r0.r1.…>
+              mode d: d<digest of the same numbers>
+      G       `;`-list, one entry per series: <g0.g1.…>, gi = endpoint index | I (insufficient) | P (panic)
 -/
 open Thanos Thanos.Parse
 
 namespace Thanos.Driver.Hashring
+open Thanos.Hashring
+
+/-- position of `x` in `xs`, appending it when new -/
+def internAux (x : String) : List String → Nat → Option Nat
+  | [], _ => none
+  | y :: ys, i => if x = y then some i else internAux x ys (i + 1)
+
+def intern (tab : List String) (x : String) : List String × Nat :=
+  match internAux x tab 0 with
+  | some i => (tab, i)
+  | none => (tab ++ [x], tab.length)
+
+/-- parse the endpoint list; zone names are interned in order of first occurrence -/
+def parseEps (s : String) : Option (List Ep) :=
+  let rec go (toks : List String) (tab : List String) (acc : List Ep) : Option (List Ep) :=
+    match toks with
+    | [] => some acc.reverse
+    | t :: ts =>
+      match splitChar '/' t with
+      | [_, az, hs] =>
+        match parseNats? '.' hs with
+        | some hashes =>
+          let (tab', z) := intern tab az
+          go ts tab' ({ az := z, hashes := hashes } :: acc)
+        | none => none
+      | _ => none
+  go (listOf ',' s) [] []
+
+def parseSeries (s : String) : Option (List Nat) :=
+  (listOf ',' s).mapM fun t =>
+    match splitChar ':' t with
+    | [_, _, v] => parseNat? v
+    | _ => none
+
+def showGet : Get → String
+  | .node e => toString e
+  | .insufficient => "I"
+  | .panic => "P"
+
+def digestStep (h x : Nat) : Nat := (h * 1000003 + x + 1) % 2305843009213693951
+
+def digest (secs : List (Sec × List Nat)) : Nat :=
+  secs.foldl (fun h s => digestStep (s.2.foldl digestStep (digestStep h s.1.ep)) 1000000) 7
+
+def showTable (mode : String) (secs : List (Sec × List Nat)) : String :=
+  if mode = "d" then s!"d{digest secs}"
+  else joinWith ";" (secs.map fun s => s!"{s.1.ep}:{showNats "." s.2}")
+
+def showGets (numEps : Nat) (secs : List (Sec × List Nat)) (nq : Nat) (vs : List Nat) : String :=
+  joinWith ";" (vs.map fun v => joinWith "." ((List.range nq).map fun n => showGet (getN numEps secs v n)))
+
+/-- two neighbouring sections with the same hash: `sort.Sort` may order them either way, so the
+    case is outside the compared domain (both sides answer `tie`) -/
+def hasTie : List (Sec × List Nat) → Bool
+  | a :: b :: rest => a.1.hash == b.1.hash || hasTie (b :: rest)
+  | _ => false
+
+def ket (lapCheck : Bool) (mode : String) (rf nq : Nat) (eps : List Ep) (vs : List Nat) : String :=
+  match build lapCheck eps rf with
+  | .tooFew => "toofew"
+  | .stuck => "stuck"
+  | .hang => "hang"
+  | .panic => "panic"
+  | .ring secs =>
+    if hasTie secs then "tie"
+    else s!"ok {showTable mode secs} {showGets eps.length secs nq vs}"
 
 def handle : List String → String
+  | ["ket", mode, rf, nq, eps, series] =>
+    match parseNat? rf, parseNat? nq, parseEps eps, parseSeries series with
+    | some rf, some nq, some eps, some vs => ket true mode rf nq eps vs
+    | _, _, _, _ => "bad-op"
   | _ => "bad-op"
 
 end Thanos.Driver.Hashring
